@@ -278,6 +278,7 @@ class AbsExec:
     def __init__(self, qual: str, hooks: dict[str, Callable[..., Any]] | None = None, helpers: dict[str, Any] | None = None):
         self.qual = qual
         self.hooks = hooks or {}
+        self._generators: list[list[Any]] = []
         self.function_resolver: Callable[[str], Any] | None = None  # name -> FunctionInfo of a module-level function of the package
         self.concrete_strings = False  # interpret the methods of Python strings on concrete strings (split, strip, ...)
         self.static_resolver: Callable[[str, str], Any] | None = None  # (name of a class or its alias, function) -> FunctionInfo of an in-package static function
@@ -299,6 +300,10 @@ class AbsExec:
 
     def truth(self, v: Any, e: ast.AST) -> bool:
         self.used(v)
+        if "truth" in self.hooks:
+            t_ = self.hooks["truth"](self, v)
+            if t_ is not NotImplemented:
+                return bool(t_)
         if isinstance(v, bool) or v is None or isinstance(v, (int, str, float)):
             return bool(v)
         if isinstance(v, (list, tuple, set, frozenset, dict)):
@@ -368,6 +373,9 @@ class AbsExec:
                     parts.append(v.value if isinstance(v, ast.Constant) else self.ev(v.value, env))  # type: ignore[attr-defined]
             except (Unknown, Internal, Raised):
                 return Opaque("fstring")
+            if self.concrete_strings and all(isinstance(x, str) for x in parts) and not any(getattr(v, "format_spec", None) or getattr(v, "conversion", -1) not in (-1,)
+                                                                                           for v in e.values if isinstance(v, ast.FormattedValue)):
+                return "".join(parts)
             return FString(tuple(parts))
         if isinstance(e, ast.Attribute):
             return self.attr(self.ev(e.value, env), e.attr, e)
@@ -403,6 +411,16 @@ class AbsExec:
                 right = self.ev(c, env)
                 if not isinstance(op, (ast.Is, ast.IsNot)):
                     self.used(left, right)
+                if "compare" in self.hooks and not isinstance(op, (ast.Is, ast.IsNot, ast.In, ast.NotIn)):
+                    sym_ = {ast.Lt: "<", ast.LtE: "<=", ast.Gt: ">", ast.GtE: ">=", ast.Eq: "==", ast.NotEq: "!="}[type(op)]
+                    r_ = self.hooks["compare"](self, sym_, left, right)
+                    if r_ is not NotImplemented:
+                        if len(e.ops) == 1:
+                            return r_
+                        if not self.truth(r_, e):
+                            return False
+                        left = right
+                        continue
                 if isinstance(left, (Sym, App)) or isinstance(right, (Sym, App)):
                     if isinstance(op, (ast.Is, ast.IsNot)):
                         r = (left == right) == isinstance(op, ast.Is)
@@ -501,6 +519,10 @@ class AbsExec:
         if isinstance(e, ast.BinOp):
             a, b = self.ev(e.left, env), self.ev(e.right, env)
             self.used(a, b)
+            if isinstance(a, str) and isinstance(b, str) and isinstance(e.op, ast.Add):
+                return a + b
+            if isinstance(a, str) and isinstance(b, int) and not isinstance(b, bool) and isinstance(e.op, ast.Mult):
+                return a * b
             if isinstance(a, (Sym, App)) or isinstance(b, (Sym, App)):
                 return App(f"binop:{type(e.op).__name__}", (freeze(a), freeze(b)))
             num = (int, float)
@@ -589,6 +611,9 @@ class AbsExec:
         if isinstance(e, ast.Lambda):
             return Closure(e, env)
         if isinstance(e, ast.Yield):
+            if self._generators:  # inside a helper generator that is run to the end: the values are collected (see call_closure)
+                self._generators[-1].append(self.ev(e.value, env) if e.value is not None else None)
+                return None
             hook = self.hooks.get("yield")
             if hook is None:
                 raise self.unknown(e, "yield")
@@ -683,7 +708,7 @@ class AbsExec:
         if isinstance(v, MObj) and (v.cls, name) in self.properties and name not in v.fields:
             getter = self.properties[(v.cls, name)][0]
             if getter is not None:
-                node = getter.analysis_node
+                node = getter.node
                 return self.call_closure(Closure(node, {}), [v], {}, e)
         if isinstance(v, MObj):
             if name == "__dict__":
@@ -691,7 +716,7 @@ class AbsExec:
             if name in v.fields:
                 return v.fields[name]
             return ("bound", v, name)
-        if isinstance(v, (Lin, int, float, FString)) and not isinstance(v, bool):
+        if isinstance(v, (Lin, int, float, FString)):
             return ("bound", v, name)
         if isinstance(v, KindView):
             return ("bound", v, name)
@@ -738,7 +763,7 @@ class AbsExec:
             if self.function_resolver is not None and isinstance(e.func, ast.Name):
                 h = self.function_resolver(e.func.id)
                 if h is not None:
-                    return self.call_closure(Closure(h.analysis_node if hasattr(h, "analysis_node") else h.node, {}), args, kw, e)
+                    return self.call_closure(Closure(h.node, {}), args, kw, e)
             return Opaque("call")
         raise self.unknown(e, "call target")
 
@@ -756,6 +781,18 @@ class AbsExec:
         env.update(kw)
         if isinstance(node, ast.Lambda):
             return self.ev(node.body, env)
+        if _is_generator(node):
+            # a helper generator: run to the end and hand back the list of what it yields (its side effects happen earlier than they would
+            # lazily; analyses that order such effects against the consumer's must not inline generators)
+            self._generators.append([])
+            try:
+                try:
+                    self.block(node.body, env)
+                except _Return:
+                    pass
+                return list(self._generators[-1])
+            finally:
+                self._generators.pop()
         try:
             self.block(node.body, env)
         except _Return as r:
@@ -770,6 +807,10 @@ class AbsExec:
                 return args[0]
             if name == "len":
                 return Opaque("number of tokens")
+        if name == "isinstance" and len(args) == 2 and "instance-of" in self.hooks:
+            r_ = self.hooks["instance-of"](self, args[0], args[1])
+            if r_ is not NotImplemented:
+                return bool(r_)
         if name == "isinstance" and len(args) == 2:
             classes = args[1] if isinstance(args[1], tuple) and args[1] and isinstance(args[1][0], tuple) else (args[1],)
             names_ = {c[1] for c in classes if isinstance(c, tuple) and len(c) == 2 and c[0] == "class"}
@@ -916,6 +957,10 @@ class AbsExec:
         hook = self.hooks.get(f"method:{name}")
         if hook is not None:
             return hook(self, e, recv, args, kw)
+        if self.concrete_strings and isinstance(recv, str) and name == "join" and len(args) == 1:
+            items_ = list(self.iterate(args[0], e))
+            if all(isinstance(x, str) for x in items_):
+                return recv.join(items_)
         if self.concrete_strings and isinstance(recv, str) and name in STR_METHODS and all(isinstance(a, (str, int, type(None), tuple)) for a in list(args) + list(kw.values())):
             try:
                 return getattr(recv, name)(*args, **kw)
@@ -967,7 +1012,7 @@ class AbsExec:
                     raise Raised("ValueError", e)
                 return hits[0]
         if isinstance(recv, (set, frozenset)):
-            others = [set(self.iterate(a, e)) for a in args]
+            others = [set(self.iterate(a, e)) for a in args] if name not in ("add", "discard", "remove", "copy", "pop", "clear") else []
             if name == "union":
                 return set(recv).union(*others)
             if name == "difference":
@@ -1039,14 +1084,14 @@ class AbsExec:
         if isinstance(recv, Opaque) and self.static_resolver is not None and f"method:{name}" not in self.hooks:
             h = self.static_resolver(recv.what, name)
             if h is not None:
-                node = h.analysis_node if hasattr(h, "analysis_node") else h.node
+                node = h.node  # the code as written: the normalisations of analysis_node (helper inlining, unrolling) are for the CFG-based rules
                 skip = 0 if "staticmethod" in getattr(h, "decorators", []) else 1
                 if skip:
                     raise self.unknown(e, f"{recv.what}.{name} is not a static function")
                 return self.call_closure(Closure(node, {}), list(args), kw, e)
         if isinstance(recv, (Opaque, MObj)) and name in self.helpers and f"method:{name}" not in self.hooks:
             h = self.helpers[name]
-            node = h.analysis_node if hasattr(h, "analysis_node") else h.node
+            node = h.node  # the code as written: the normalisations of analysis_node (helper inlining, unrolling) are for the CFG-based rules
             skip = 0 if "staticmethod" in getattr(h, "decorators", []) else 1
             a = node.args
             names = [x.arg for x in a.posonlyargs + a.args]
@@ -1077,8 +1122,10 @@ class AbsExec:
             if name == "get":
                 el = elem_of(args[0]) if args else None
                 return el if el is not None and el.kind == recv.kind else (args[1] if len(args) > 1 else None)
-        if isinstance(recv, (Lin, int, float)) and name in ("astype", "item", "squeeze", "copy"):
+        if isinstance(recv, (Lin, int, float)) and name in ("astype", "item", "squeeze", "copy", "sum", "max", "min", "mean", "flatten", "ravel"):
             return recv
+        if isinstance(recv, (int, float)) and name in ("any", "all"):
+            return bool(recv)  # a 0-d number: any() / all() are its truth value (NaN is true)
         raise self.unknown(e, f"method {name} of {type(recv).__name__}")
 
     # ------------------------------------------------------------------ statements
@@ -1101,7 +1148,7 @@ class AbsExec:
                 raise self.unknown(target, "attribute store")
             if (base.cls, target.attr) in self.properties and self.properties[(base.cls, target.attr)][1] is not None:
                 setter = self.properties[(base.cls, target.attr)][1]
-                self.call_closure(Closure(setter.analysis_node, {}), [base, v], {}, target)
+                self.call_closure(Closure(setter.node, {}), [base, v], {}, target)
                 return
             base.fields[target.attr] = v
         elif isinstance(target, ast.Subscript) and "setitem" in self.hooks and not isinstance(self.ev(target.value, env), (list, dict)):
@@ -1365,6 +1412,18 @@ def write_only_lists(loop: ast.For, env: dict[str, Any]) -> set[str]:
         if ok and uses.get(name):
             out.add(name)
     return out
+
+
+def _is_generator(node: ast.AST) -> bool:
+    stack = list(ast.iter_child_nodes(node))
+    while stack:
+        x = stack.pop()
+        if isinstance(x, (ast.Yield, ast.YieldFrom)):
+            return True
+        if isinstance(x, (ast.FunctionDef, ast.AsyncFunctionDef, ast.Lambda, ast.ClassDef)):
+            continue
+        stack.extend(ast.iter_child_nodes(x))
+    return False
 
 
 class Decisions:
